@@ -433,6 +433,28 @@ def rule_name_space(ctx: Ctx) -> None:
                     f"`{norm(y)[:70]}` uses the ORIGINAL output name(s) `self._output_name` in {mname}, which otherwise works with the renamed `self.output_name`: after update_renames / update_scope on the outputs the two differ, "
                     "so annotations are keyed (or tuple elements picked) by names the pipeline does not use", f"`self._output_name` in {mname}: context not recognised", key=f"output-name-space {mname} {norm(y)[:30]}")
     ctx.floor("9-name-space.output", m, 3)
+    # one collection of names is drawn from ONE name space: original parameter names go with the original output name
+    # (`original_parameters`, `_output_name`), renamed ones with the renamed (`parameters`, `output_name`)
+    mixed, n_cat = [], 0
+    for fn in P.functions.values():
+        if not fn.module.name.startswith(("pipefunc._pipefunc", "pipefunc._pipeline")):
+            continue
+        for b in walk_no_nested(fn.node):
+            if not (isinstance(b, ast.BinOp) and isinstance(b.op, (ast.Add, ast.BitOr))):
+                continue
+            by_recv: dict[str, set[str]] = {}
+            for x in ast.walk(b):
+                if isinstance(x, ast.Attribute) and x.attr in ("parameters", "output_name", "original_parameters", "_output_name") and isinstance(x.value, ast.Name):
+                    by_recv.setdefault(x.value.id, set()).add(x.attr)
+            for recv, at in by_recv.items():
+                if len(at) >= 2:
+                    n_cat += 1
+                    if {"original_parameters", "output_name"} <= at or {"parameters", "_output_name"} <= at:
+                        mixed.append((fn, b, recv, at))
+    ctx.add("9-name-space", mixed[0][0] if mixed else fs_owner(P), mixed[0][1] if mixed else fs_owner(P).node, not mixed, f"parameter and output names that are collected together come from one name space ({n_cat} collection(s))" if not mixed else
+            f"`{norm(mixed[0][1])[:80]}` collects {sorted(mixed[0][3])} of `{mixed[0][2]}`: original parameter names together with the RENAMED output name (or the reverse) - after an output was renamed once, "
+            "a rename addressed by its original name no longer reaches the producer while the consumers are renamed: the edge is cut and the consumer silently runs on its default", key="one-name-space")
+    ctx.floor("9-name-space.collections", n_cat, 2)
     fs = P.func(f"{PFM}.PipeFunc._flatten_scopes")
     all_its = iterations(fs.node)
     outer_targets = {x.id for it in all_its for x in ast.walk(it["target"]) if isinstance(x, ast.Name)}
@@ -450,6 +472,10 @@ def rule_name_space(ctx: Ctx) -> None:
     filt = [it for it in its if [f_ for f_ in it["filters"] if about_entry(f_[0], it)]]
     ctx.tri("9-name-space", fs, filt[0]["node"] if filt else fs.node, bool(its) and not filt, bool(filt), "_flatten_scopes turns every entry of a scope dict into a dotted keyword",
             f"_flatten_scopes drops entries of a scope dict (`if {filt[0]['filters'][0][0][:50] if filt else ''}`): in a scope shared by several functions the arguments of the other functions are lost and silently replaced by defaults", key="flatten-total")
+
+
+def fs_owner(P):
+    return P.func(f"{PFM}.PipeFunc._flatten_scopes")
 
 
 def check(ctx: Ctx) -> None:
